@@ -210,9 +210,13 @@ static_assert(PXBITS <= 8 * (int)sizeof(BF), "partition must fit the carrier");
 static_assert(sizeof(value_t) == sizeof(BF), "packed pixel is its carrier");
 constexpr int PB = 8 * (int)sizeof(BF);           // bits per pixel slot
 using buf_t = gbuf<3 * sizeof(BF)>;               // neighbour | pixel under test | neighbour
-// a compatible packed pixel with another carrier type (assignment goes through static_copy, channel by channel)
+// a compatible packed pixel with another carrier type (assignment goes through static_copy, channel by channel); OTHER=0 when the
+// partition fits no second carrier type (64-bit carrier with more than 32 pixel bits)
+#if OTHER
 using BF2 = std::conditional<sizeof(BF) == 8, std::uint32_t, std::uint64_t>::type;
 using other_t = gil::packed_pixel_type<BF2, sizes_t, layout_t>::type;
+static_assert(PXBITS <= 8 * (int)sizeof(BF2), "partition must fit the other carrier");
+#endif
 extern "C" {
 // at_c<K>(px) = v
 void h_px_set(void) {
@@ -239,6 +243,7 @@ void h_px_arith(void) {
     ARITH_PX("add_assign", 4, old + a)
     ARITH_PX("sub_assign", 5, old - a)
 }
+#if OTHER
 // whole-pixel assignment from a compatible pixel of another type: every channel copied, unused carrier bits, neighbours, guards kept
 void h_px_assign_other(void) {
     buf_t b; value_t* px = (value_t*)b.body();
@@ -256,6 +261,7 @@ void h_px_construct_other(void) {
     value_t p(q);
     vp_assert(same_as(p, rec), "ppx.construct_channels");
 }
+#endif
 // whole-pixel assignment from a value of the same type (the value type's own copy assignment: the pixel owns its carrier, so the
 // frame is the carrier of the pixel under test; neighbours and guards must not change)
 void h_px_assign_same(void) {
@@ -303,10 +309,10 @@ using buf_t = gbuf<BODY>;
 static ref_t ref_at(buf_t const& b, long g) { return ref_t(b.body() + g / 8, (int)(g % 8)); }
 static cref_t cref_at(buf_t const& b, long g) { return cref_t(b.body() + g / 8, (int)(g % 8)); }
 // Case split over the symbolic start bit(s): inside the body the start bit is a constant in each unwinding, so every pointer, shift
-// and byte count of the code under test is concrete (eight, resp. 64, guarded concrete copies instead of one copy full of symbolic
-// pointer offsets).  The frame predicates are asserted after the split, with the symbolic start bit.
+// and byte count of the code under test is concrete (eight guarded concrete copies instead of one copy full of symbolic pointer
+// offsets; a 64-way split over two symbolic start bits cost 100-350 s in symex, so the start bit of a second, source reference
+// is a concrete vp_param).  The frame predicates are asserted after the split, with the symbolic start bit.
 #define SPLIT8(sym, cb) for (int cb = 0; cb < 8; ++cb) if (cb == (sym))
-#define SPLIT64(sym1, sym2, cc) for (int cc = 0; cc < 64; ++cc) if (cc == (sym1) * 8 + (sym2))
 extern "C" {
 // at_c<K>(ref) = v at any start bit
 void h_ref_set(void) {
@@ -326,28 +332,28 @@ void h_ref_set(void) {
     long g = START + bit;
     vp_assert(b.only_changed(g + fb_of(k), g + fb_of(k) + SZ[k]), "bref.set_frame");
 }
-// ++ -- (pre/post) += -= on the proxy of channel K, one after the other
-#define ARITH_REF(name, op, expect) { b.snap(); SPLIT8(bit, cb) { ref_t const r = ref_at(b, START + cb); record(r, rec); unsigned long old = rec[k]; arith_ch(r, k, op, a); \
-    vp_assert(get_ch(r, k) == low((expect), SZ[k]), "bref." name "_mod_2_pow_bits"); vp_assert(same_as(r, rec, k), "bref." name "_other_channels_unchanged"); } \
-    vp_assert(b.only_changed(START + bit + fb_of(k), START + bit + fb_of(k) + SZ[k]), "bref." name "_frame"); }
+// one of ++ -- (pre: op 0,1; post: 2,3) += -= (4,5) on the proxy of channel K = vp_param(0), op = vp_param(1)
 void h_ref_arith(void) {
-    buf_t b; int bit = vp_range(0, 7); int k = vp_param(0);
-    unsigned long rec[8];
+    buf_t b; int bit = vp_range(0, 7); int k = vp_param(0); int op = vp_param(1);
     unsigned a = vp_nondet_u16();
-    ARITH_REF("preinc", 0, old + 1)
-    ARITH_REF("predec", 1, old - 1)
-    ARITH_REF("postinc", 2, old + 1)
-    ARITH_REF("postdec", 3, old - 1)
-    ARITH_REF("add_assign", 4, old + a)
-    ARITH_REF("sub_assign", 5, old - a)
+    SPLIT8(bit, cb) {
+        ref_t const r = ref_at(b, START + cb);
+        unsigned long rec[8]; record(r, rec);
+        arith_ch(r, k, op, a);
+        unsigned long want = (op == 0 || op == 2) ? rec[k] + 1 : (op == 1 || op == 3) ? rec[k] - 1 : op == 4 ? rec[k] + a : rec[k] - a;
+        vp_assert(get_ch(r, k) == low(want, SZ[k]), "bref.arith_mod_2_pow_bits");
+        vp_assert(same_as(r, rec, k), "bref.arith_other_channels_unchanged");
+    }
+    long g = START + bit;
+    vp_assert(b.only_changed(g + fb_of(k), g + fb_of(k) + SZ[k]), "bref.arith_frame");
 }
-// whole-pixel assignment: 0: ref = value, 1: ref = ref at another start bit in another buffer, 2: ref = const ref,
+// whole-pixel assignment, op = vp_param(0): 0: ref = value, 1: ref = ref at start bit vp_param(1) of another buffer, 2: ref = const ref,
 // 3: value = ref, 4: value constructed from ref
 void h_ref_assign(void) {
-    buf_t b; buf_t c; int bit = vp_range(0, 7); int sbit = vp_range(0, 7); int op = vp_param(0);
+    buf_t b; buf_t c; int bit = vp_range(0, 7); int sbit = vp_param(1); int op = vp_param(0);
     value_t q0 = sym_value();
-    SPLIT64(bit, sbit, cc) {
-        long g = START + cc / 8, gs = START + cc % 8;
+    SPLIT8(bit, cb) {
+        long g = START + cb, gs = START + sbit;
         ref_t const r = ref_at(b, g);
         unsigned long rec[8];
         if (op == 0) { value_t q = q0; record(q, rec); r = q; vp_assert(r == q, "bref.assign_value_equal"); vp_assert(same_as(r, rec), "bref.assign_value_channels"); }
@@ -361,13 +367,14 @@ void h_ref_assign(void) {
     else vp_assert(b.unchanged(), "bref.read_leaves_source_unchanged");
     vp_assert(c.unchanged(), "bref.assign_source_unchanged");
 }
-// 0: swap(ref, ref), 1: swap(ref, value) then swap(value, ref), 10+K: swap of the proxies of channel K
+// op = vp_param(0): 0: swap(ref, ref), 1: swap(ref, value) then swap(value, ref), 10+K: swap of the proxies of channel K;
+// the second reference starts at the concrete bit vp_param(1) of another buffer
 void h_ref_swap(void) {
-    buf_t b; buf_t c; int bit = vp_range(0, 7); int sbit = vp_range(0, 7); int op = vp_param(0);
+    buf_t b; buf_t c; int bit = vp_range(0, 7); int sbit = vp_param(1); int op = vp_param(0);
     value_t q0 = sym_value();
     int k = op >= 10 ? op - 10 : 0;
-    SPLIT64(bit, sbit, cc) {
-        long g = START + cc / 8, gs = START + cc % 8;
+    SPLIT8(bit, cb) {
+        long g = START + cb, gs = START + sbit;
         ref_t const r = ref_at(b, g); ref_t const s = ref_at(c, gs);
         unsigned long rr[8], rs[8], rq[8]; record(r, rr); record(s, rs);
         value_t q = q0; record(q, rq);
@@ -399,11 +406,11 @@ void h_it_fill(void) {
     long g = START + bit;
     vp_assert(b.only_changed(g, g + (long)n * PXBITS), "bit.fill_frame");
 }
-// std::copy of n = vp_param(0) pixels between two buffers at independent symbolic start bits
+// std::copy of n = vp_param(0) pixels from start bit vp_param(1) (concrete) of one buffer to a symbolic start bit of another
 void h_it_copy(void) {
-    buf_t b; buf_t c; int bit = vp_range(0, 7); int sbit = vp_range(0, 7); int n = vp_param(0);
-    SPLIT64(bit, sbit, cc) {
-        long g = START + cc / 8, gs = START + cc % 8;
+    buf_t b; buf_t c; int bit = vp_range(0, 7); int sbit = vp_param(1); int n = vp_param(0);
+    SPLIT8(bit, cb) {
+        long g = START + cb, gs = START + sbit;
         it_t src(c.body() + gs / 8, (int)(gs % 8)); it_t dst(b.body() + g / 8, (int)(g % 8));
         unsigned long rs[NPIX][8];
         for (int i = 0; i < n; ++i) { ref_t const s = ref_at(c, gs + (long)i * PXBITS); record(s, rs[i]); }
